@@ -16,6 +16,7 @@ def main():
     for i, a in enumerate(sys.argv):
         if a == "--tier": tier = sys.argv[i + 1]
         if a == "--props": props = sys.argv[i + 1].split(",")
+    benign = "--benign" in sys.argv     # a behaviour-preserving change: demo.py prints a battery of observations, identical with and without
     meta = json.load(open(os.path.join(d, "meta.json")))
     props = props or [meta["property"]]
     tmp = tempfile.mkdtemp(prefix="seedtest-", dir="/tmp")
@@ -40,6 +41,11 @@ def main():
         res["demo_patched_exit"] = r1.returncode
         res["demo_patched_output"] = r1.stdout[-400:]
         res["confirmed"] = bool(res["patch_applies"] and "72 passed" in res["tests"] and r0.returncode == 0 and r1.returncode != 0)
+        if benign:
+            res["benign"] = True
+            res["demo_output_identical"] = r0.stdout == r1.stdout
+            res["confirmed"] = bool(res["patch_applies"] and "72 passed" in res["tests"] and r0.returncode == 0 and r1.returncode == 0
+                                    and r0.stdout == r1.stdout)
         res["checks"] = {}
         for p in props:
             t0 = time.time()
